@@ -8,7 +8,7 @@ checks = sys.argv[6:] or [prop]
 env = dict(os.environ, GOFLAGS='-mod=mod', GOPROXY='off', GOSUMDB='off')
 wt = '/tmp/wt-eval-%s' % sid
 def sh(cmd, cwd=None, timeout=1800):
-    r = subprocess.run(cmd, shell=True, cwd=cwd, env=env, capture_output=True, text=True, timeout=timeout)
+    r = subprocess.run(cmd, shell=True, cwd=cwd, env=env, capture_output=True, text=True, errors='replace', timeout=timeout)
     return r.returncode, (r.stdout + r.stderr)
 subprocess.run('git -C /repo worktree remove --force %s' % wt, shell=True, capture_output=True)
 res = {'seed': sid, 'property': prop, 'ran': []}
